@@ -217,6 +217,33 @@ def _act1(ctx, name, action, where):
             if len(keep) != len(objs):
                 tr.skipped.append(("extend-pending-in-outer-call", name))
             objs = keep
+            # ... and a doer that would thereby run under two schedulers at once through a STALE membership: a DoDoer keeps
+            # the doers it was given in .doers after it was closed and enters them all when it is entered again.  Not passed
+            # on: a DoDoer one of whose (transitive) members is running somewhere right now, and a doer that is a listed
+            # member of another target of this call (or of a doer an outer extend() is about to enter) - that other
+            # scheduler is going to enter it as well.  The caller made the doer a member of two schedulers; undefined.
+            def _members(o, seen=None):
+                seen = set() if seen is None else seen
+                for m in list(getattr(o, "doers", None) or []):
+                    if id(m) not in seen:
+                        seen.add(id(m))
+                        yield m
+                        yield from _members(m, seen)
+            keep = [o for o in objs if o in host.doers or not any(vname(m) in tr.open for m in _members(o))]
+            if len(keep) != len(objs):
+                tr.skipped.append(("extend-dodoer-with-running-member", name))
+            objs = keep
+            others = [ctx.by_name[n] for names in ctx.pending for n in names if n in ctx.by_name]
+            keep = []
+            for o in objs:
+                listers = [q for q in objs + others if q is not o and q is not host
+                           and any(m is o for m in _members(q))]
+                if o not in host.doers and listers:
+                    continue
+                keep.append(o)
+            if len(keep) != len(objs):
+                tr.skipped.append(("extend-member-of-another-target", name))
+            objs = keep
         rec = {"op": a, "by": name, "host": getattr(host, "vname", "doist"),
                "args": [vname(o) for o in objs], "seq0": len(tr.ev),
                "before": [vname(o) for o in host.doers], "cycle": ctx.doist.cycles, "where": where,
